@@ -44,7 +44,8 @@ def run(tier, seed):
     from dissect.cstruct import cstruct
 
     rep = Report("C12", tier, seed, "other", "./vf check C12 --tier " + tier)
-    rep.add_case_results(run_cases([("contracts.enums", "make_enum", (w, e)) for w in ("delegation", "equality", "arrays") for e in "<>"]), "T1")
+    rep.add_case_results(run_cases([("contracts.enums", "make_enum", (w, e)) for w in ("delegation", "equality", "arrays") for e in "<>"]
+                                   + [("contracts.dispatch", "make_dispatch", (w,)) for w in ("forms", "forms:>")]), "T1")
     num = Bounded("auto-numbering", f"{len(DECLS)} declaration shapes (gaps, duplicates, expressions over earlier members, signed/unsigned storage) x both parsers")
     pres = Bounded("value-preservation", "every 8-bit underlying value, boundary values of wider storage; scalar, array, null-terminated array, bit-field use, arrays of 63/64/65/300 elements (standalone and expression-sized, both readers); two parses compared")
     for di, (kind, typ, members) in enumerate(DECLS):
